@@ -343,16 +343,26 @@ where
         let storage = self.storage;
         storage.log.load_object(r);
 
-        // the value of an indirect object may itself be a reference: follow it here, with a bound, so
-        // that readers which resolve a reference and look again never meet another reference
-        let mut r = r;
-        for _ in 0 .. 16 {
-            match storage.resolve_ref(r, flags, self)? {
-                Primitive::Reference(next) => r = next,
-                p => return Ok(p)
+        let value = storage.resolve_ref(r, flags, self)?;
+        // The value of an indirect object may itself be a reference, and readers follow such a value by
+        // resolving again: make sure that this ends (after at most 16 hops) before handing it out.
+        let mut next = match value {
+            Primitive::Reference(next) => Some(next),
+            _ => None
+        };
+        let mut hops = 0;
+        while let Some(n) = next {
+            hops += 1;
+            if hops > 16 {
+                bail!("chain of references starting at object {} does not end", r.id);
             }
+            next = match storage.resolve_ref(n, ParseFlags::ANY, self) {
+                Ok(Primitive::Reference(m)) => Some(m),
+                // (a value, or an error the reader will meet itself)
+                _ => None
+            };
         }
-        bail!("chain of references starting at object {} does not end", r.id)
+        Ok(value)
     }
 
     fn get<T: Object+DataSize>(&self, r: Ref<T>) -> Result<RcRef<T>> {
